@@ -882,7 +882,10 @@ def write_evidence(prop, tier, seed, cfg, results, violations, known_hits, undec
             solver_time[r['unit']] = dict(smt_s=r.get('solver_time_s'), verus_total_s=r.get('total_time_s'))
             per_unit.append(dict(unit=r['unit'], engine='verus', verified_functions=r.get('verified_fns'), errors=r.get('errors'), canary=r.get('canary'), wall_s=r.get('wall_s')))
         elif r['engine'] == 'native':
+            known_names = {f['name'] for (f, k) in known_hits}
             for t in r.get('tests', []):
+                if not t.get('ok') and t['name'] in known_names:
+                    continue   # reported under known_findings, not as an obligation of this run
                 obligations += 1
                 if t.get('ok'):
                     discharged += 1
